@@ -1152,6 +1152,32 @@ def inline_calls(facts, e, depth=2, skip=None, _stack=()):
     return e
 
 
+def _variant_payloads(ph, variant, _d=0):
+    """payload expressions of the branches of a (nested) phi that construct `variant`; [] when no branch can; None when a
+    branch is not a visible constructor"""
+    if _d > 6:
+        return None
+    out = []
+    for br in ph[2]:
+        b0 = br
+        while b0[0] in ('ref', 'deref'):
+            b0 = b0[1]
+        if b0[0] == 'aggr' and re.search(r'(result::Result|option::Option)::(Ok|Err|Some|None)$', str(b0[1])):
+            if b0[1].endswith('::' + variant) and b0[2]:
+                out.append(b0[2][0])
+            continue
+        if b0[0] == 'call' and b0[1].endswith('::from_residual') and variant in ('Ok', 'Some'):
+            continue
+        if b0[0] == 'phi':
+            sub = _variant_payloads(b0, variant, _d + 1)
+            if sub is None:
+                return None
+            out += sub
+            continue
+        return None
+    return out
+
+
 def simplify_field(e):
     """field projection through a constructed value: (Adt{a, b}).name -> operand; (X as Some).0 with X = Some{v} -> v"""
     e = simplify(e)
@@ -1171,6 +1197,9 @@ def simplify_field(e):
     if base[0] == 'downcast' and base[1][0] == 'phi' and base[2] in ('Ok', 'Some', 'Err') and e[2].lstrip('#') == '0':
         # (phi(Ok{a} | Err{..} | from_residual(..)) as Ok).0: the downcast selects the branches that build that variant
         ph = base[1]
+        flat = _variant_payloads(ph, base[2])
+        if flat is not None and len(flat) == 1:
+            return flat[0]
         keep = []
         for i, br in enumerate(ph[2]):
             b0 = br
@@ -1181,6 +1210,8 @@ def simplify_field(e):
                     keep.append((i, b0[2][0]))
                 continue
             if b0[0] == 'call' and b0[1].endswith('::from_residual') and base[2] in ('Ok', 'Some'):
+                continue
+            if b0[0] == 'phi' and _variant_payloads(b0, base[2]) == []:
                 continue
             keep.append((i, simplify_field(('field', ('downcast', br, base[2])) + tuple(e[2:]))))
         if len(keep) == 1:
